@@ -13,7 +13,7 @@ cp /verif/known_findings.json "$T/verif/" 2>/dev/null
 if [ "$1" = "-e" ]; then
   sed -i -E "$2" "$T/repo/$3" || exit 3; shift 3
 else
-  (cd "$T/repo" && patch -p1 -s < "$1") || { echo "PATCH FAILED"; exit 3; }; shift
+  P=$(readlink -f "$1"); (cd "$T/repo" && patch -p1 -s < "$P") || { echo "PATCH FAILED"; exit 3; }; shift
 fi
 (cd "$T/repo" && go build ./... ) || { echo "MUTANT DOES NOT BUILD"; exit 4; }
 rc=0
